@@ -561,7 +561,7 @@ func churnRun(r *hx.Run, rnd *hx.Rand, idx int) {
 }
 
 func freeRuns(r *hx.Run, cfg hx.Config, rnd *hx.Rand) {
-	n := cfg.N(80, 2500)
+	n := cfg.N(80, 1500)
 	base := runtime.NumGoroutine()
 	for i := 0; i < n && !r.Stop(); i++ {
 		procs := 1 + rnd.Intn(16)
